@@ -105,7 +105,14 @@ def evaluate(prop, cases):
         if isinstance(o, dict) and "__exception__" in o:
             spans.append((len(reqs), len(reqs)))
             continue
-        r = prop.requests(c, o)
+        try:
+            r = prop.requests(c, o)
+        except Exception as e:
+            # the observation no longer has the shape the adapter expects: a broken correspondence on this
+            # case (never a harness error by itself: on the unchanged tree no case takes this path)
+            o = {"__adapter_error__": f"requests raised {type(e).__name__}: {e}"[:300], "obs": o}
+            obs_list[len(spans)] = o
+            r = []
         spans.append((len(reqs), len(reqs) + len(r)))
         reqs.extend(r)
     answers = bridge.run_driver(reqs)
@@ -114,11 +121,20 @@ def evaluate(prop, cases):
         if isinstance(o, dict) and "__exception__" in o:
             v = {"corr": False, "spec": False, "detail": "implementation raised: " + o["text"],
                  "nontrivial": True, "exception": o["__exception__"]}
+        elif isinstance(o, dict) and "__adapter_error__" in o:
+            v = {"corr": False, "spec": True, "detail": "correspondence adapter: " + o["__adapter_error__"],
+                 "nontrivial": False, "adapter_error": True}
         else:
             try:
                 v = prop.judge(c, o, answers[a:b])
             except Exception as e:
-                raise RuntimeError(f"judge failed on case {json.dumps(c)[:400]}: {e}\n{traceback.format_exc()}")
+                if os.environ.get("VERIF_STRICT_JUDGE"):
+                    raise RuntimeError(f"judge failed on case {json.dumps(c)[:400]}: {e}\n{traceback.format_exc()}")
+                # implementation output outside what the comparator understands: correspondence broken on this
+                # case, Spec not decided (counted as not-false so that the failing-input search runs)
+                v = {"corr": False, "spec": True, "nontrivial": False, "adapter_error": True,
+                     "detail": f"correspondence comparator raised {type(e).__name__}: {e}"[:300]
+                               + " | " + " / ".join(traceback.format_exc().strip().splitlines()[-4:])[:400]}
         v["obs"] = o
         v["answers"] = answers[a:b]
         verdicts.append(v)
